@@ -544,7 +544,7 @@ def stepRet (w : World τ) (a : ActId) (f : Frame τ) (fs : List (Frame τ)) (v 
     | none => w.retTo a fs .unit
   | .taskStart t delay at_ prog =>                                     -- task.py payload_wrapper
     if (w.task t).result.isSome then (w.childFinished t false).retTo a fs .unit
-    else if truthy delay || truthy at_ then
+    else if delay.isSome || at_.isSome then
       let when : When τ := match delay, at_ with
         | some d, _ => .delay d
         | none, some x => .at_ x
